@@ -38,7 +38,12 @@ SCALAR_POOL = [
 ]
 # enum members that compare equal to plain ints / strs: only where == is not what is being compared (C07, C09)
 MIXED_POOL = [['enum', 'lv_universe', 'Level', 'ONE'], ['enum', 'lv_universe', 'Level', 'TWO'], ['enum', 'lv_universe', 'Opt', 'ADAM']]
-BAD_POOL = [['bad', 'set'], ['bad', 'bytes'], ['bad', 'object'], ['bad', 'complex'], ['bad', 'type']]
+BAD_POOL = [['bad', 'set'], ['bad', 'bytes'], ['bad', 'object'], ['bad', 'complex'], ['bad', 'type'], ['bad', 'faketask']]
+
+
+class FakeTask:
+    """Not a task type, but exposes the marker attribute tasks carry."""
+    _is_task = True
 TASK_TYPES = [('lv_universe', 'V1', ['a', 'b']), ('lv_universe', 'V2', ['x']), ('lv_universe2', 'V2', ['x']),
               ('lv_pkg.sub.defs', 'V2', ['x']), ('lv_pkg.other', 'V2', ['x']),
               ('lv_universe', 'V', ['x']), ('lv_universe', 'VV', ['x']), ('lv_universe', 'VPost', ['x'])]
@@ -107,7 +112,7 @@ def build(spec):
         cls = getattr(MODULES[spec[1]], spec[2])
         return cls(**{f: build(v) for f, v in spec[3]})
     if k == 'bad':
-        return {'set': set(), 'bytes': b'x', 'object': object(), 'complex': 1j, 'type': int}[spec[1]]
+        return {'set': set(), 'bytes': b'x', 'object': object(), 'complex': 1j, 'type': int, 'faketask': FakeTask()}[spec[1]]
     raise ValueError(spec)
 
 
